@@ -37,7 +37,7 @@ def model(wd, name, rmsgs, progs, break_inner=False, panic_wake=False, liveness=
 def gen_scenario(rnd, i, stop):
     n = rnd.randrange(1, MAXR + 1)
     k = rnd.randrange(1, MAXP + 1)
-    msgs = [rnd.choice([0, 1, 1, 2, 3, 5, 5, 40, 50]) for _ in range(n)]
+    msgs = [rnd.choice([0, 1, 1, 2, 3, 5, 5, 40, 50]) if rnd.random() < 0.95 else 150 for _ in range(n)]
     kinds = [rnd.choice(["cb", "cb", "xbeam"]) for _ in range(n)]
     progs = [[] for _ in range(k)]
     for r in range(1, n + 1):
